@@ -30,7 +30,7 @@ INVARIANTS Done
 CHECK_DEADLOCK FALSE
 CONSTANTS
   RIds = {"r1", "r2", "r3", "r4", "r5"}
-  Msgs = {"m1", "m2", "m3", "m4", "m5", "m6"}
+  Msgs = {"m1", "m2", "m3", "m4", "m5", "m6", "b1", "b2", "b3", "b4", "b5", "b6", "b7", "b8", "b9", "b10", "b11", "b12", "b13", "b14", "b15", "b16", "b17", "b18", "b19", "b20"}
   Nil = "nil"
 """
 
